@@ -40,6 +40,10 @@ type G struct {
 	Row   Row
 	P     proto.Protocol
 	Class Class
+	// K is the value index within the row (Class == K%3). Generators use it to cycle through
+	// small enumerations deterministically, so that every run covers every choice in every
+	// protocol (signatures then do not depend on the seed).
+	K int
 	// Variant is set by a generator that deliberately produced a legal but unusual
 	// representation (e.g. a permuted action set); it becomes part of a violation signature.
 	Variant string
@@ -328,7 +332,7 @@ var yamlWords = map[string]bool{"null": true, "true": true, "false": true, "yes"
 // sub-check with one signature per class; the per-packet generators avoid them for 1.20.3+
 // so that one conversion defect does not surface once per packet type.
 func RiskyNBTText(s string) bool {
-	if s == "" || strings.ContainsAny(s, "\\\n\r") {
+	if s == "" || strings.ContainsAny(s, "\\\n\r") || (strings.Contains(s, `"`) && strings.Contains(s, "'")) {
 		return true
 	}
 	if strings.ContainsAny(s[:1], "+-.0123456789~") {
